@@ -38,84 +38,106 @@ def apply_of(field, inp, rng=3):
     return Call("Operator::apply", lambda a: derives_from_self(a, field=field), inp, lambda a: rng_passthrough(a, rng), nargs=3)
 
 
+def err_tags(ctx, ret, call):
+    """names of the constructors that wrap `call`'s error inside `ret` (map_err(call, Ctor) / map_err(call, |e| Ctor(e, ..)) /
+    Err(Ctor(call's Err payload, ..))); also returns the constants passed along (e.g. MapError's index)"""
+    tags = []
+    for x in subexprs(ret):
+        if callee_is(x, "Result::map_err") and len(x[3]) == 2 and peel(x[3][0], ()) == call:
+            f = x[3][1]
+            if f[0] == "fnitem":
+                tags.append((f[1].rsplit("::", 1)[-1], ()))
+            elif f[0] == "agg" and f[1] == "closure":
+                for q in closure_paths(ctx, f) or []:
+                    if q.end == "return" and q.ret[0] == "agg" and q.ret[1] == "adt" and q.ret[3] and q.ret[3][0][:2] == ("cparam", 2):
+                        tags.append((q.ret[2].rsplit("::", 1)[-1], tuple(a[3] if a[0] == "const" else short(a, 3) for a in q.ret[3][1:])))
+        if x[0] == "agg" and x[1] == "adt" and x[3] and x[3][0] == ("field", call, 0, "Err"):
+            tags.append((x[2].rsplit("::", 1)[-1], tuple(a[3] if a[0] == "const" else short(a, 3) for a in x[3][1:])))
+    return tags
+
+
+def ok_of(call):
+    """pattern: the Ok payload of `call` (possibly after map_err), via `?` or a match"""
+    return TryOk(Through(lambda e: e == call, calls=("Result::map_err",)))
+
+
+def is_error_of(ctx, p, call):
+    """path p returns the (tagged) error of `call`"""
+    r = p.ret
+    if callee_is(r, "FromResidual::from_residual"):
+        return match(r[3][0], TryErr(Through(lambda e: e == call, calls=("Result::map_err",))))
+    if r[0] == "agg" and path_ends(r[2], "Result::Err"):
+        return any(y == ("field", call, 0, "Err") for y in subexprs(r))
+    return False
+
+
+def check_two_stage(ctx, f, rule, name, specs, ok_shape):
+    """specs: [(receiver field, input predicate(aps so far) -> pattern, tag, tag args)] for the two inner applies, in order.
+    Every return path must apply a prefix of the stages in order; a path that stops after stage i returns stage i's error under its tag;
+    the path that ran all stages returns ok_shape(aps)."""
+    at = f.at()
+    ps = [p for p in ctx.paths(f) if p.end != "unreachable"]
+    seen_full = seen_stop = 0
+    for pi, p in enumerate(ps):
+        aps = [c for c in p.calls() if callee_is(c, "Operator::apply")]
+        okp = p.end == "return" and len(aps) <= len(specs)
+        detail = short(p.ret, 6)[:300] if p.ret is not None else p.end
+        for i, c in enumerate(aps[:len(specs)]):
+            recv, inp, tag, targs = specs[i]
+            okp = okp and derives_from_self(c[3][0], field=recv) and rng_passthrough(c[3][2], 3) and match(c[3][1], inp(aps[:i]))
+        if not okp:
+            ctx.bad(rule, "%s/path%d/stages-in-order-on-right-inputs" % (name, pi), "inner applies on this path: %s" % ", ".join(short(c, 4) for c in aps), at)
+            continue
+        # every earlier stage succeeded on this path
+        for i, c in enumerate(aps[:-1]):
+            conds_ok = any(cc[1] == 0 and cc[0][0] == "discr" and (peel(cc[0][1], ()) == c or mentions(cc[0][1], c)) for cc in p.conds)
+            if not conds_ok:
+                okp = False
+        last = aps[-1] if aps else None
+        if last is not None and is_error_of(ctx, p, last):
+            i = len(aps) - 1
+            tags = err_tags(ctx, p.ret, last)
+            want = (specs[i][2], specs[i][3])
+            okp = okp and tags == [want]
+            seen_stop += 1 if i < len(specs) - 1 else 0
+            ctx.check(okp, rule, "%s/stage%d-failure-stops-pipeline-tagged-%s" % (name, i, specs[i][2] + ("(%s)" % ",".join(map(str, specs[i][3])) if specs[i][3] else "")), detail, at,
+                      bad_detail="a failure of part %d must be returned at once under tag %s%s and later parts must not run; extracted tags %s, applies %d, ret %s" % (i, specs[i][2], specs[i][3] or "", tags, len(aps), detail))
+        elif len(aps) == len(specs):
+            seen_full += 1
+            shape = ok_shape(ctx, p, aps)
+            ctx.check(okp and shape, rule, "%s/all-parts-ran-result-assembled-in-order" % name, detail, at,
+                      bad_detail="the success path must assemble the parts' results as documented; extracted " + detail)
+        else:
+            ctx.bad(rule, "%s/path%d/unclassified-return" % (name, pi), detail, at)
+    ctx.check(seen_full >= 1 and seen_stop >= 1, rule, "%s/has-success-and-early-exit-paths" % name, "%d success, %d early-exit path(s)" % (seen_full, seen_stop), at)
+
+
 def check(ctx):
     F = ctx.F
     # ---------------- Then -------------------------------------------------
     f = ctx.fn("<ec_core::operator::composable::then::Then<F, G> as " + OP % "A")
-    ps = return_paths(ctx.paths(f))
-    okp = [p for p in ps if not is_err_return(p)]
-    erp = [p for p in ps if is_err_return(p)]
-    first = Bind("first", Call("Result::map_err", apply_of("f", Param(2)), fitem("ThenError::First"), nargs=2))
-    pat_ok = Call("Result::map_err", apply_of("g", TryOk(first)), fitem("ThenError::Second"), nargs=2)
-    good = len(okp) == 1 and match(okp[0].ret, pat_ok)
-    ctx.check(good, "R14.1", "Then/second-fed-with-first-result", short(okp[0].ret, 7) if okp else "-", f.at(),
-              bad_detail="expected map_err(g.apply(ok(map_err(f.apply(x, rng), First)), rng), Second); extracted " + "; ".join(short(p.ret, 9) for p in okp))
-    if okp:
-        aps = [c for c in okp[0].calls() if callee_is(c, *APPLY)]
-        ctx.check(len(aps) == 2 and derives_from_self(aps[0][3][0], field="f") and derives_from_self(aps[1][3][0], field="g"),
-                  "R14.1", "Then/order-f-then-g", " -> ".join(short(a[3][0], 3) for a in aps), f.at())
-        cond_ok = len(okp[0].conds) == 1 and okp[0].conds[0][1] == 0 and okp[0].conds[0][0][0] == "discr" and \
-            match(okp[0].conds[0][0][1], Call("Try::branch", first))
-        ctx.check(cond_ok, "R14.1", "Then/g-only-on-first-ok-edge", "g is reached only through Continue of f's `?`", f.at())
-    good = len(erp) == 1 and match(erp[0].ret, Call("FromResidual::from_residual", TryErr(first))) and \
-        [c for c in erp[0].calls() if callee_is(c, *APPLY)].__len__() == 1
-    ctx.check(good, "R14.1", "Then/first-error-stops-tagged-First", short(erp[0].ret, 6) if erp else "-", f.at(),
-              bad_detail="the error path must return f's error tagged ThenError::First without applying g; extracted " + "; ".join(short(p.ret, 9) for p in erp))
 
+    def then_ok(ctx, p, aps):
+        r = p.ret
+        tags = err_tags(ctx, r, aps[1])
+        comb = callee_is(r, "Result::map_err") and peel(r[3][0], ()) == aps[1] and tags == [("Second", ())]
+        split = match(r, Agg("Result::Ok", ok_of(aps[1])))
+        return comb or split
+    check_two_stage(ctx, f, "R14.1", "Then", [("f", lambda prev: Param(2), "First", ()), ("g", lambda prev: ok_of(prev[0]), "Second", ())], then_ok)
     # ---------------- And ----------------------------------------------------
     f = ctx.fn("<ec_core::operator::composable::and::And<F, G> as " + OP % "A")
-    ps = return_paths(ctx.paths(f))
-    okp = [p for p in ps if not is_err_return(p)]
-    erp = [p for p in ps if is_err_return(p)]
-    fa = Bind("fa", Call("Result::map_err", apply_of("f", Call("Clone::clone", Through(Param(2)), nargs=1)), fitem("AndError::First"), nargs=2))
-    ga = Bind("ga", Call("Result::map_err", apply_of("g", Param(2)), fitem("AndError::Second"), nargs=2))
-    good = len(okp) == 1 and match(okp[0].ret, Agg("Result::Ok", Agg("tuple", TryOk(fa), TryOk(ga))))
-    ctx.check(good, "R14.2", "And/pairs-(f_value,g_value)-on-same-input", short(okp[0].ret, 7) if okp else "-", f.at(),
-              bad_detail="expected Ok((ok(f.apply(x.clone(), rng) First), ok(g.apply(x, rng) Second))); extracted " + "; ".join(short(p.ret, 9) for p in okp))
-    if okp:
-        aps = [c for c in okp[0].calls() if callee_is(c, *APPLY)]
-        ctx.check(len(aps) == 2 and derives_from_self(aps[0][3][0], field="f") and derives_from_self(aps[1][3][0], field="g"),
-                  "R14.2", "And/order-f-then-g", " -> ".join(short(a[3][0], 3) for a in aps), f.at())
-    e_first = [p for p in erp if len([c for c in p.calls() if callee_is(c, *APPLY)]) == 1]
-    e_second = [p for p in erp if len([c for c in p.calls() if callee_is(c, *APPLY)]) == 2]
-    ctx.check(len(e_first) == 1 and match(e_first[0].ret, Call("FromResidual::from_residual", TryErr(fa))), "R14.2", "And/first-error-stops-tagged-First",
-              short(e_first[0].ret, 6) if e_first else "-", f.at())
-    ctx.check(len(e_second) == 1 and match(e_second[0].ret, Call("FromResidual::from_residual", TryErr(ga))) and
-              any(c[1] == 0 for c in e_second[0].conds), "R14.2", "And/second-error-tagged-Second",
-              short(e_second[0].ret, 6) if e_second else "-", f.at())
 
+    def and_ok(ctx, p, aps):
+        return match(p.ret, Agg("Result::Ok", Agg("tuple", ok_of(aps[0]), ok_of(aps[1]))))
+    check_two_stage(ctx, f, "R14.2", "And", [("f", lambda prev: Call("Clone::clone", Through(Param(2)), nargs=1), "First", ()), ("g", lambda prev: Param(2), "Second", ())], and_ok)
     # ---------------- Map (array, tuple) -----------------------------------------
     for ty, elem, okagg in (("[Input; 2]", lambda i: ("index", ("param", 2), ("const", "usize", str(i), i)), "array"),
                             ("(Input, Input)", lambda i: ("field", ("param", 2), i, None), "tuple")):
         f = ctx.fn("<ec_core::operator::composable::map::Map<F> as " + OP % ty)
-        ps = return_paths(ctx.paths(f))
-        okp = [p for p in ps if not is_err_return(p)]
-        erp = [p for p in ps if is_err_return(p)]
 
-        def tagged(i, b):
-            def chk(e):
-                if not (e[0] == "agg" and e[1] == "closure"):
-                    return False
-                cps = closure_paths(ctx, e)
-                if not cps or len(cps) != 1:
-                    return False
-                return match(cps[0].ret, Agg("MapError::MapError", CParam(2), Const(i)))
-            return chk
-        r0 = Bind("r0", Call("Result::map_err", apply_of("f", lambda a: a == elem(0)), tagged(0, None), nargs=2))
-        r1 = Bind("r1", Call("Result::map_err", apply_of("f", lambda a: a == elem(1)), tagged(1, None), nargs=2))
-        good = len(okp) == 1 and match(okp[0].ret, Agg("Result::Ok", Agg(okagg, TryOk(r0), TryOk(r1))))
-        ctx.check(good, "R14.3", "Map<%s>/elements-in-order-tagged-with-own-index" % ty, short(okp[0].ret, 7) if okp else "-", f.at(),
-                  bad_detail="expected Ok([ok(f.apply(x0) MapError(_,0)), ok(f.apply(x1) MapError(_,1))]); extracted " + "; ".join(short(p.ret, 9) for p in okp))
-        if okp:
-            aps = [c for c in okp[0].calls() if callee_is(c, *APPLY)]
-            ctx.check(len(aps) == 2 and aps[0][3][1] == elem(0) and aps[1][3][1] == elem(1), "R14.3", "Map<%s>/order-0-then-1" % ty,
-                      " -> ".join(short(a[3][1], 3) for a in aps), f.at())
-        e_first = [p for p in erp if len([c for c in p.calls() if callee_is(c, *APPLY)]) == 1]
-        e_second = [p for p in erp if len([c for c in p.calls() if callee_is(c, *APPLY)]) == 2]
-        ctx.check(len(e_first) == 1 and match(e_first[0].ret, Call("FromResidual::from_residual", TryErr(r0))), "R14.3", "Map<%s>/first-failure-stops" % ty,
-                  short(e_first[0].ret, 6) if e_first else "-", f.at())
-        ctx.check(len(e_second) == 1 and match(e_second[0].ret, Call("FromResidual::from_residual", TryErr(r1))), "R14.3", "Map<%s>/second-failure-tagged-1" % ty,
-                  short(e_second[0].ret, 6) if e_second else "-", f.at())
+        def map_ok(ctx, p, aps, okagg=okagg):
+            return match(p.ret, Agg("Result::Ok", Agg(okagg, ok_of(aps[0]), ok_of(aps[1]))))
+        check_two_stage(ctx, f, "R14.3", "Map<%s>" % ty, [("f", lambda prev, e=elem(0): (lambda a: a == e), "MapError", (0,)), ("f", lambda prev, e=elem(1): (lambda a: a == e), "MapError", (1,))], map_ok)
 
     # ---------------- Map (Vec) -----------------------------------------------------
     f = ctx.fn("<ec_core::operator::composable::map::Map<F> as " + OP % "std::vec::Vec<Input>")
